@@ -48,6 +48,24 @@ def export(conf):
     return (";".join(alines) or "-", ";".join(glines) or "-")
 
 
+def setup_records(conf):
+    """(queries, real results) of the group set-up: class name and defining atom of every group, and what setup_atoms left
+    (centre as bit patterns, interaction atoms for acids / for bases as indices into conf.atoms)"""
+    idx = {id(a): i for i, a in enumerate(conf.atoms)}
+    qs, real = [], []
+    for g in conf.groups:
+        if id(g.atom) not in idx:
+            raise OutOfModel("a group's atom is not in the conformation's atom list")
+        qs.append("%s|%d" % (hx(type(g).__name__), idx[id(g.atom)]))
+        try:
+            real.append(("%d:%d:%d" % (common.bits(g.x), common.bits(g.y), common.bits(g.z)),
+                         nats([idx[id(a)] for a in g.interaction_atoms_for_acids]), nats([idx[id(a)] for a in g.interaction_atoms_for_bases]),
+                         type(g).__name__, g.label))
+        except KeyError:
+            raise OutOfModel("an interaction atom is not in the conformation's atom list")
+    return qs, real
+
+
 def real_records(conf):
     """what calculate_pka left on the groups, partners as indices into conf.groups"""
     gidx = {id(g): i for i, g in enumerate(conf.groups)}
@@ -120,6 +138,8 @@ class Recorder:
 
     def __init__(self):
         self.pairs = []
+        self.setups = []
+        self.setups_skipped = 0
 
     def __enter__(self):
         import propka.conformation_container as CC
@@ -132,6 +152,15 @@ class Recorder:
                 req = export(conf)
             except OutOfModel as e:
                 req = str(e)
+            try:
+                # with common_charge_centre the centres of covalently coupled groups are overwritten after set-up
+                # (set_common_charge_centres): outside the set-up model, counted as skipped
+                if getattr(conf.parameters, "common_charge_centre", 0):
+                    rec.setups_skipped += 1
+                else:
+                    rec.setups.append((conf.name, req[0] if not isinstance(req, str) else None) + setup_records(conf))
+            except OutOfModel:
+                rec.setups_skipped += 1
             shared = bool(getattr(conf.parameters, "shared_determinants", 0))
             rp = "1" if conf.parameters.remove_penalised_group else "0"
             rec.orig(conf, version, options)
@@ -202,6 +231,36 @@ def params_dump():
         "shared=%s" % ("true" if P.shared_determinants else "false")])
 
 
+def check_setups(setups):
+    """run the set-up model on the recorded conformations; returns (n groups compared, n unknown classes, [(conf, label, what)])"""
+    reqs, todo = [], []
+    for name, atoms, qs, real in setups:
+        if atoms is None or not qs:
+            continue
+        reqs.append("setup run %s %s" % (atoms, ";".join(qs)))
+        todo.append((name, real))
+    n, unknown, bad = 0, 0, []
+    if reqs:
+        outs = common.driver_batch(reqs)
+        for (name, real), resp in zip(todo, outs):
+            recs = resp.split(";") if resp not in ("-", "bad-op") else []
+            if len(recs) != len(real):
+                bad.append((name, "?", "the model answered %d of %d groups (%s)" % (len(recs), len(real), resp[:40])))
+                continue
+            for r, m in zip(real, recs):
+                if m == "unknown":
+                    unknown += 1
+                    bad.append((name, r[4], "group class %s is not in the set-up model" % r[3]))
+                    continue
+                f = m.split("|")
+                n += 1
+                if f[0] != r[0]:
+                    bad.append((name, r[4], "%s centre %s, model %s (mean of atoms %s)" % (r[3], r[0], f[0], f[1])))
+                elif f[2] != r[1] or f[3] != r[2]:
+                    bad.append((name, r[4], "%s interaction atoms acids %s / bases %s, model %s / %s" % (r[3], r[1], r[2], f[2], f[3])))
+    return n, unknown, bad
+
+
 class tie:
     """`with tie(ctx, what):` - every calculate_pka call of the real code made inside the block is recorded; on exit the
     compiled Lean scoring model is run on (a bounded, de-duplicated sample of) the recorded conformations and the
@@ -265,4 +324,20 @@ class tie:
                    "determinants; counts/partners/order exact, numbers 1e-9)" % (n, self.what, ngroups, ndets),
                    not bad, "; ".join("%s: %s" % (c, "; ".join(d[:3])) for c, d in bad[:2])[:600])
         self.bad = bad
+        # the group set-up (centres and interaction atoms) through the set-up model, on the same conformations
+        seen2, ssample = set(), []
+        for s in self.rec.setups:
+            key = hash((s[1], tuple(s[2])))
+            if key not in seen2:
+                seen2.add(key)
+                ssample.append(s)
+        if len(ssample) > self.limit:
+            step = len(ssample) / float(self.limit)
+            ssample = [ssample[int(i * step)] for i in range(self.limit)]
+        ns, unknown, sbad = check_setups(ssample)
+        ctx.count("set-up: groups compared with the Lean model", ns)
+        ctx.count("set-up: conformations outside the model (common_charge_centre, unexportable state)", self.rec.setups_skipped)
+        ctx.oblige("correspondence: Lean set-up model (setup_atoms of every group class, set_center, ring search) = real groups: centre (bit "
+                   "patterns) and both interaction-atom lists of %d groups in %d conformations" % (ns, len(ssample)),
+                   not sbad, "; ".join("%s %s: %s" % b for b in sbad[:3])[:500])
         return False
